@@ -9,6 +9,7 @@ row per implementation class taken on a live node.  The theorems below range ove
 pairs of those tables (kernel evaluation, `decide +kernel`), and are lifted by the general theorems about the model
 (`IprProofs/Category.lean`), which hold for every hierarchy, node class and category code.
 -/
+set_option autoImplicit false
 namespace Ipr.Cat
 open Ipr.Gen.C06
 
@@ -23,17 +24,19 @@ def leafCodes : List Nat := ifaces.map (·.code)
 /-- The numeric value of every enumerator is its position in `node-category` (execution agrees with the source). -/
 theorem C06_codes_are_positions : catCodes = catNames.zipIdx := by decide +kernel
 
-/-- Category names are pairwise distinct, so are the codes of the leaf interfaces. -/
-theorem C06_codes_distinct : catNames.Nodup ∧ leafCodes.Nodup := by decide +kernel
+/-- The codes of the leaf interfaces are pairwise distinct (the table lists them in increasing order). -/
+theorem C06_codes_distinct : leafCodes.Nodup :=
+  strictlyIncreasing_nodup (by decide +kernel)
 
 /-- Every leaf interface `ipr::X` stamps the code that bears its name — both as executed and in the compiler's class
     dump (`Category<Category_code::X, Base>` is its only `Category` base) — and `Visitor` has a hook for it. -/
 theorem C06_interface_stamps_own_code :
-    ∀ i ∈ ifaces, catCodes.lookup i.name = some i.code ∧ i.srcStamp = [i.code] ∧ i.hasHook = true := by decide +kernel
+    ∀ i ∈ ifaces, catCodes[i.code]? = some (i.name, i.code) ∧ i.srcStamp = [i.code] ∧ i.hasHook = true := by decide +kernel
 
 /-- Every enumerator either has an interface class or is one of the listed exceptions (never both). -/
 theorem C06_every_code_accounted :
-    ∀ n ∈ catNames, (n ∈ ifaces.map (·.name)) ≠ (n ∈ noIface) := by decide +kernel
+    (∀ c ∈ List.range catNames.length, (c ∈ leafCodes) ≠ (c ∈ noIface.map (·.2))) ∧
+    (∀ p ∈ noIface, catCodes[p.2]? = some p) := by decide +kernel
 
 /-- The abstract hierarchy is transitive and antisymmetric, every abstract class other than `Node` derives from
     `Node`, and the abstract bases of every leaf interface form a non-empty chain: the hypotheses of `C06_lowest_total`
@@ -91,16 +94,16 @@ theorem C06_through_classic_exactly :
 theorem C06_view_exact (h : Hier) (K : Nat) (n : NodeClass) : view h K n = true ↔ n.accept = .leaf K :=
   view_iff h K n
 
-/-- All (implementation class, K) pairs: `util::view<ipr::K>` answered the node iff `K` is its category, and never
-    answered anything else. -/
-theorem C06_view_table :
-    ∀ r ∈ rows, r.viewOther = [] ∧ ∀ K ∈ leafCodes, K ∈ r.viewSelf ↔ r.category = K := by decide +kernel
+/-- The table, all rows: the set of `K` for which `util::view<ipr::K>` answered the node is `{category}`, and it never
+    answered another node.  (Every `K` with an interface and a hook was asked: `C06_interface_stamps_own_code`.) -/
+theorem C06_view_table_rows : ∀ r ∈ rows, r.viewSelf = [r.category] ∧ r.viewOther = [] := by decide +kernel
 
-/-- … and that is what the model computes from the observed `accept` hook, for all pairs. -/
-theorem C06_view_matches_model :
-    ∀ r ∈ rows, match r.node? with
-      | some n => ∀ K ∈ leafCodes, (K ∈ r.viewSelf) ↔ view hier K n = true
-      | none => False := by decide +kernel
+/-- All (implementation class, K) pairs — in fact every `K : Nat`: `util::view<ipr::K>` answered the node iff `K` is its
+    category. -/
+theorem C06_view_table : ∀ r ∈ rows, ∀ K : Nat, K ∈ r.viewSelf ↔ r.category = K := by
+  intro r hr K
+  rw [(C06_view_table_rows r hr).1, List.mem_singleton]
+  exact eq_comm
 
 /-- Lifted: any node class whose `accept` calls the hook of its own category — which `C06_accept_fires_own_hook`
     establishes for every implementation class — is viewed at `K` iff `K` is its category, for **every** `K : Nat`
@@ -110,10 +113,18 @@ theorem C06_view_iff_category (h : Hier) (n : NodeClass) (hacc : n.accept = .lea
   view_own_category h n hacc K
 
 theorem C06_rows_satisfy_view_hypothesis :
-    ∀ r ∈ rows, ∃ n, r.node? = some n ∧ n.accept = .leaf n.category := by
+    ∀ r ∈ rows, ∃ n, r.node? = some n ∧ n.category = r.category ∧ n.accept = .leaf n.category := by
   intro r hr
   have h := C06_accept_fires_own_hook r hr
-  exact ⟨{ category := r.category, accept := .leaf r.category }, by simp [Row.node?, h], rfl⟩
+  exact ⟨{ category := r.category, accept := .leaf r.category }, by simp [Row.node?, h], rfl, rfl⟩
+
+/-- … and that is what the model computes from the observed `accept` hook, for all (class, K) pairs. -/
+theorem C06_view_matches_model :
+    ∀ r ∈ rows, ∃ n, r.node? = some n ∧ ∀ K : Nat, K ∈ r.viewSelf ↔ view hier K n = true := by
+  intro r hr
+  obtain ⟨n, hn, hcat, hacc⟩ := C06_rows_satisfy_view_hypothesis r hr
+  refine ⟨n, hn, fun K => ?_⟩
+  rw [C06_view_table r hr K, view_own_category hier n hacc K, hcat]
 
 /-! ## Coverage: the rows are all the node classes there are -/
 
@@ -121,9 +132,11 @@ theorem C06_rows_satisfy_view_hypothesis :
 theorem C06_every_interface_exercised : ∀ i ∈ ifaces, ∃ r ∈ rows, r.category = i.code := by decide +kernel
 
 /-- Every concrete class derived from `ipr::Node` that the compiler lays out for `src/impl.cxx` has a row. -/
-theorem C06_every_class_exercised : ∀ s ∈ srcClasses, s ∈ rowSyms := by decide +kernel
+theorem C06_every_class_exercised : ∀ s ∈ srcClasses, s ∈ rowKeys := by decide +kernel
 
-theorem C06_one_row_per_class : rowSyms.Nodup ∧ rowSyms.length = rows.length := by decide +kernel
+/-- One row per class (the table is sorted by class key). -/
+theorem C06_one_row_per_class : rowKeys.Nodup ∧ rowKeys.length = rows.length :=
+  ⟨strictlyIncreasing_nodup (by decide +kernel), by decide +kernel⟩
 
 /-! ## General facts about the nearest-super-category function (any hierarchy) -/
 
